@@ -465,6 +465,14 @@ class Interp:
             finally:
                 pass
             self.exec_block(st.finalbody, fr)
+        elif isinstance(st, ast.ImportFrom) and fr.module is not None:
+            mod = fr.module._abs_module(st.level, st.module)
+            target = self.repo.modules.get(mod)
+            for al in st.names:
+                if target is not None:
+                    fr.vars[al.asname or al.name] = self.global_name(target, al.name, st)
+                else:
+                    fr.vars[al.asname or al.name] = Prim(al.name)
         elif isinstance(st, (ast.Import, ast.ImportFrom, ast.Global)):
             return
         else:
